@@ -141,10 +141,11 @@ def pack(bits):
 def armor_char(v):
     return v + 48 if v < 40 else v + 56
 
-def armor(bits):
-    """bit string -> (armoured payload bytes, fill count)"""
+def armor(bits, fill_bits=None):
+    """bit string -> (armoured payload bytes, fill count).  The fill positions of the last character are
+    zeros, or the given bit string (a transmitter may leave anything there: the receiver must clear them)"""
     fill = -len(bits) % 6
-    bits = bits + '0' * fill
+    bits = bits + ((fill_bits or '') + '0' * fill)[:fill]
     return bytes(armor_char(int(bits[i:i + 6], 2)) for i in range(0, len(bits), 6)), fill
 
 def armor_val(c):
